@@ -111,6 +111,10 @@ IsNumLit(l) == l.t \in {"num", "ref"}
 InUnit(b, u, nu) == IF u = "" \/ nu = "" THEN b ELSE QDiv(QMul(b, UnitF[nu]), UnitF[u])
 Num(b, u, k, nu) == [t |-> "num", n |-> InUnit(b, u, nu), u |-> u, k |-> k]
 
+\* the same NUMBER as b node-units, written in the alternative unit: another quantity that only looks alike
+\* (3 cm among the options of a node holding 3 m) - must not be taken for the value
+Trap(b, nu) == [t |-> "num", n |-> b, u |-> Alt1(nu), k |-> 0]
+
 Far == 1000
 QSub(x, y) == Q(x[1] * y[2] - y[1] * x[2], x[2] * y[2])
 \* different bases closer than 1e-4 relative (never the case inside the generated pools; observed values of
@@ -453,6 +457,9 @@ NumPool1(ty, nu) ==
      \cup (LET z0 == Num(Z, "", 0, nu)  zn == Num(Z, nu, 0, nu)
          IN {List(<<z0>>), List(<<z0, a0>>), List(<<a0, z0>>), List(<<cA, zn, b>>), Lines(<<z0>>), Lines(<<a0, z0>>)}
             \cup (IF HasAlt(nu) THEN {List(<<Num(Z, Alt1(nu), 0, nu), a1>>)} ELSE {}))
+     \* look-alike options: the value's number in another unit, alone / beside a real option / in both forms
+     \cup (IF HasAlt(nu) THEN {Lines(<<Trap(A, nu)>>), Lines(<<Trap(A, nu), b>>), Lines(<<Trap(B, nu), cA>>),
+                               List(<<Trap(A, nu), Trap(B, nu)>>), One(At("==", "self", Trap(A, nu)))} ELSE {})
      \* a literal written without unit is read in the node's unit (like an option or a modification)
      \cup {One(At(op, "self", l)) : op \in Ops6, l \in {a0, Num(B, "", 0, nu)}}
 
